@@ -176,6 +176,15 @@ func (u *Universe) Client(perm []int) *resolve.LocalClient {
 	return c
 }
 
+// AddAllTo adds every version of the universe, in universe order, to an
+// existing client (replacing whatever it holds under the same keys).
+func (u *Universe) AddAllTo(c *resolve.LocalClient) {
+	for _, v := range u.Versions {
+		rv, rs := u.mkVersion(v)
+		c.AddVersion(rv, rs)
+	}
+}
+
 // Counting wraps a client: it counts calls, cancels the resolution's context
 // once the logical step budget is exhausted (so that non-termination is
 // decided by steps, not by wall clock), optionally yields at call boundaries
